@@ -3,7 +3,7 @@
 d="$1"; shift
 git -C /repo apply "$d/patch.diff" || { echo "APPLY FAILED $d"; exit 9; }
 for p in "$@"; do
-  out=$(cd /verif && ./check "$p" 2>&1); rc=$?
+  out=$(cd /verif && VERIF_EVIDENCE_DIR=/tmp/verif-sweep-evidence VERIF_REPLAY_DIR=/tmp/verif-sweep-replays ./check "$p" 2>&1); rc=$?
   echo "== $(basename $d) on $p: exit=$rc"; echo "$out" | grep -E "VIOLATION|UNDECIDED|CHECKER|failed obligation|outside-subset|undecided:|crashed" | cut -c1-330 | head -8
 done
 git -C /repo checkout -- .
